@@ -267,6 +267,16 @@ def _pkt_uint(width):
     return stub
 
 
+def pkt_get_byte(cx):
+    v = cx.fresh('int', 'byte')
+    sets, assume, f, _r = _advance(cx, z3.Unit(v.z), 'byte')
+    return [Out(ret=v, sets=sets, assume=assume + [v.z >= 0, v.z <= 255], event=('pkt_uint', (cx.recv, 1, v))),
+            Out(exc=VExc('PacketDecodeError'), assume=[z3.Length(f['ghost_rest']) < 1])]
+
+
+pkt_get_byte.modifies = ('_idx', 'ghost_done', 'ghost_rest')
+
+
 def pkt_get_string(cx):
     from pyvc.builtins_model import be_term
     v = cx.fresh('bytes', 'str')
@@ -313,6 +323,7 @@ for _f in (pkt_check_end, pkt_consumed, pkt_new):
 
 PKT_STUBS = {'SSHPacket': pkt_new, 'SSHPacket.get_bytes': pkt_get_bytes, 'SSHPacket.get_uint32': _pkt_uint(4),
              'SSHPacket.get_uint64': _pkt_uint(8), 'SSHPacket.get_string': pkt_get_string,
+             'SSHPacket.get_byte': pkt_get_byte,
              'SSHPacket.check_end': pkt_check_end, 'SSHPacket.get_consumed_payload': pkt_consumed}
 
 
@@ -363,6 +374,12 @@ real_get_bytes = _real(
     raises={'PacketDecodeError': lambda c: z3.And(z3.Length(_rest(c, False)) < c.arg('size'), _unchanged(c))},
     returns='bytes')
 
+real_get_byte = _real(
+    'get_byte', requires=_real_wf,
+    ensures=[('rest==byte||rest\'', _read_post(lambda c: z3.Unit(c.result))),
+             ('byte', lambda c: z3.And(c.result >= 0, c.result <= 255))],
+    raises={'PacketDecodeError': lambda c: z3.Length(_rest(c, False)) < 1}, returns='int')
+
 real_get_uint32 = _real(
     'get_uint32', requires=_real_wf,
     ensures=[('rest==be4(value)||rest\'', _read_post(lambda c: be(z3.IntVal(4), c.result))),
@@ -410,6 +427,7 @@ real_init = _real(
 for _stub, _spec in ((pkt_new, real_init), (pkt_get_bytes, real_get_bytes), (PKT_STUBS['SSHPacket.get_uint32'],
                      real_get_uint32), (PKT_STUBS['SSHPacket.get_uint64'], real_get_uint64),
                      (pkt_get_string, real_get_string), (pkt_check_end, real_check_end),
+                     (pkt_get_byte, real_get_byte),
                      (pkt_consumed, real_consumed)):
     _stub.spec_getter = (lambda sp: lambda: sp)(_spec)
 
@@ -650,10 +668,51 @@ def options_inv(c):
     conj = [pkt_inv(st, p), f['_packet'] == c.arg('options'),
             z3.Implies(c.truthy(c.argv('critical')),
                        all_known(T, c.arg('options')) == all_known(T, f['ghost_rest']))]
-    # a known option's data has been consumed completely by its decoder when the iteration ends
+    # the names decoded so far, together with what the unread part grants, are what the whole field grants
+    conj.append(granted(T, c.arg('options')) == z3.SetUnion(_result_dom(c), granted(T, f['ghost_rest'])))
+    # a known option's data has been consumed completely by its decoder when the iteration ends, and the decoder
+    # was given THIS option's data string (the string that follows its name)
+    main = [e[1] for e in c.events('pkt_string') if e[1][0].addr == p.addr]
     for e in c.events('decoder'):
-        conj.append(z3.Length(pkt_fields(st, e[1][0])['ghost_rest']) == 0)
+        dp = pkt_fields(st, e[1][0])
+        conj.append(z3.Length(dp['ghost_rest']) == 0)
+        conj.append(dp['_packet'] == main[1][1].z if len(main) == 2 else z3.BoolVal(False))
     return z3.And(conj)
+
+
+# The field is (string name, string data)*.  granted(T, field) = the set of option names (as text) the field switches on:
+# the names that have a decoder in T; an unknown pair contributes nothing and is skipped as a whole.
+STRSET = z3.ArraySort(StrS, BoolS)
+granted = z3.Function('granted', z3.ArraySort(BytesS, BoolS), BytesS, STRSET)
+granted_after_name = z3.Function('granted_after_name', z3.ArraySort(BytesS, BoolS), BytesS, BytesS, STRSET)
+ascii_dec = z3.Function('decode_ascii', BytesS, StrS)        # the engine's name for bytes.decode('ascii')
+
+
+def _result_dom(c):
+    r = c.ex.deref(c.new_state, c.localv('result'))
+    if isinstance(r, VDict):
+        if r.items:
+            raise Unsupported('concrete non-empty result dict')
+        return z3.K(StrS, z3.BoolVal(False))
+    return r.dom
+
+
+def granted_instances(c):
+    """instances, for the strings read, of the defining equations
+         granted(T, b"")                             = {}
+         granted(T, String(n) || x)                  = granted_after_name(T, n, x)
+         granted_after_name(T, n, String(d) || r)    = granted(T, r) + {ascii(n)}  if n in T  else  granted(T, r)"""
+    T = c.argv('decoders').dom
+    out = [granted(T, z3.Empty(BytesS)) == z3.K(StrS, z3.BoolVal(False))]
+    evs = [e[1] for e in c.events('pkt_string')]
+    for _p, s_, _before, after in evs:
+        out.append(granted(T, z3.Concat(S_(s_.z), after.z)) == granted_after_name(T, s_.z, after.z))
+    for (pa, n, _b0, _a0), (pb, d, _b1, after_d) in zip(evs, evs[1:]):
+        if pa.addr == pb.addr:
+            g = granted(T, after_d.z)
+            out.append(granted_after_name(T, n.z, z3.Concat(S_(d.z), after_d.z)) ==
+                       z3.If(z3.Select(T, n.z), z3.SetAdd(g, ascii_dec(n.z)), g))
+    return out
 
 
 data_then_known = z3.Function('data_then_known', z3.ArraySort(BytesS, BoolS), BytesS, BoolS)
@@ -680,11 +739,16 @@ decode_options = Spec(
     stubs=dict(PKT_STUBS, decoder=option_decoder_stub),
     local_types={'packet': 'obj:SSHPacket', 'result': 'dict[str,any]', 'name': 'bytes',
                  'decoder': 'opt[opaque:Decoder]', 'data_packet': 'obj:SSHPacket'},
-    loops={1: LoopSpec(header='packet', invariant=options_inv, lemmas=all_known_instances)},
+    loops={1: LoopSpec(header='packet', invariant=options_inv,
+                       lemmas=lambda c: all_known_instances(c) + granted_instances(c))},
     ensures=[('critical-field-accepted-only-if-every-option-is-understood',
               lambda c: z3.Implies(c.truthy(c.argv('critical')),
-                                   all_known(c.argv('decoders').dom, c.arg('options'))))],
-    lemmas=all_known_instances,
+                                   all_known(c.argv('decoders').dom, c.arg('options')))),
+             # "the CA signature covers its exact contents": the options switched on are exactly those the signed
+             # field names - an unknown non-critical (name, data) pair is skipped as a whole and changes nothing else
+             ('result-has-exactly-the-known-option-names-of-the-field',
+              lambda c: _result_dom(c) == granted(c.argv('decoders').dom, c.arg('options')))],
+    lemmas=lambda c: all_known_instances(c) + granted_instances(c),
     raises={'KeyImportError': True, 'PacketDecodeError': True, 'UnicodeDecodeError': True})
 decode_options.loops[1].havoc_locals = ['packet']
 
@@ -862,6 +926,7 @@ ASSUMPTIONS += [
     'crypto back-end key.verify(...) / der_encode are abstract (a verdict / some bytes)',
 ]
 HASHES = {b'sha256': 32, b'sha512': 64}
+CERT_TYPE_USER, CERT_TYPE_HOST = 1, 2                   # PROTOCOL.certkeys: SSH2_CERT_TYPE_USER / _HOST
 hashfn = z3.Function('H', BytesS, BytesS, BytesS)        # H(algorithm name, message)
 utf8enc = z3.Function('utf8', StrS, BytesS)              # the engine's name for String(str)
 
@@ -1016,7 +1081,9 @@ def sshsig_true_only_if(c):
         via_ca = z3.And(z3.BoolVal(k1.addr == c.new_state.rec(cert).fields['signing_key'].addr),
                         p1.z == princ, n1.z == ns, c.truthy(ca1), r1.z,
                         z3.BoolVal(len(cv) == 1 and cv[0][1][0].addr == cert.addr),
-                        cv[0][1][1].z == 0 if cv else z3.BoolVal(False),
+                        # SSHSIG signers are users (PROTOCOL.sshsig; ssh-keygen -Y verify checks the certificate with
+                        # want_host = 0): "its type matches the use" means the USER type, not any type
+                        cv[0][1][1].z == CERT_TYPE_USER if cv else z3.BoolVal(False),
                         c.eq(cv[0][1][2], c.argv('principal')) if cv else z3.BoolVal(False),
                         z3.BoolVal(c.calls('validate')[-1]['exc'] is None))
         conj.append(z3.Or(direct, via_ca))
@@ -1314,6 +1381,91 @@ dsa_verify_ssh = _mk_verify_ssh('dsa', '_DSAKey', _dsa_post, extra_stubs={'der_e
 # int.from_bytes of the two 20-byte halves: the engine's big-endian model only defines widths 1, 2, 4 and 8, so the
 # integers handed to der_encode cannot be predicted byte-exactly; no native cross-check for this function
 dsa_verify_ssh.no_replay = True
+
+
+# ---- security keys (PROTOCOL.u2f): blob = string sig || byte flags || uint32 counter [|| string origin ||
+#      string clientData || string extensions  for webauthn-...]; the key signs
+#      sha256(application) || flags || counter || sha256(message)   where message is the caller's data, or the WebAuthn
+#      client data which must itself embed the caller's data (challenge); a key that demands touch only accepts
+#      signatures whose user-presence flag (0x01) is set.
+wa_prefix = z3.Function('webauthn_prefix', BytesS, StrS, BytesS)
+
+
+def sha256_stub(cx):
+    dg = hashfn(bytes_const(b'sha256'), cx.args[0].z)
+    h = new_record(cx.st, 'Hash', ghost_digest=VBytes(dg))
+    return [Out(ret=h, assume=[z3.Length(dg) == 32])]
+
+
+def wa_prefix_stub(cx):
+    return VBytes(wa_prefix(cx.args[0].z, cx.args[1].z))
+
+
+sha256_stub.modifies = ()
+wa_prefix_stub.modifies = ()
+
+
+def _sk_post(ecdsa):
+    def post(c):
+        p = c.argv('packet')
+        outer = [e[1] for e in c.events('pkt_string') if e[1][0].addr == p.addr]
+        inner = [e[1] for e in c.events('pkt_string') if e[1][0].addr != p.addr]
+        ints = {e[1][1]: e[1][2].z for e in c.events('pkt_uint') if e[1][0].addr == p.addr}
+        evs = c.events('crypto_verify')
+        res = c.result
+        if not evs:
+            return z3.Not(res)                      # the back end was not consulted: the answer must be False
+        if len(evs) != 1 or 1 not in ints or 4 not in ints or not outer:
+            return z3.BoolVal(False)
+        ev = evs[0][1]
+        flags, counter = ints[1], ints[4]
+        sig = outer[0][1].z
+        is_wa = z3.PrefixOf(bytes_const(b'webauthn'), c.arg('sig_algorithm')) if ecdsa else z3.BoolVal(False)
+        tail = z3.Concat(z3.Unit(flags), be(z3.IntVal(4), counter))
+        if len(outer) == 4:
+            origin, cd, ext = outer[1][1].z, outer[2][1].z, outer[3][1].z
+            layout = z3.And(is_wa, c.old('ghost_rest', p) == z3.Concat(S_(sig), tail, S_(origin), S_(cd), S_(ext)),
+                            # the client data is bound to the caller's message
+                            z3.PrefixOf(wa_prefix(c.arg('data'), c.old('_application')), cd))
+            message = cd
+        elif len(outer) == 1:
+            layout = z3.And(z3.Not(is_wa), c.old('ghost_rest', p) == z3.Concat(S_(sig), tail))
+            message = c.arg('data')
+        else:
+            return z3.BoolVal(False)
+        signed = z3.Concat(c.old('_app_hash'), z3.Unit(flags), be(z3.IntVal(4), counter),
+                           hashfn(bytes_const(b'sha256'), message))
+        conj = [layout, ev[0].z == signed, res == ev[-1].z,
+                z3.Implies(c.old('_touch_required'), flags % 2 == 1)]
+        if ecdsa:
+            der = c.events('der_encode')
+            if len(inner) != 2 or len(der) != 1:
+                return z3.BoolVal(False)
+            sun = z3.Function('sunbe', BytesS, IntS)
+            rs = der[0][1][0]
+            conj += [sig == z3.Concat(S_(inner[0][1].z), S_(inner[1][1].z)), ev[1].z == der[0][1][1].z,
+                     rs.items[0].z == sun(inner[0][1].z), rs.items[1].z == sun(inner[1][1].z),
+                     ev[2].z == z3.StringVal('sha256')]
+        else:
+            conj.append(ev[1].z == sig)
+        return z3.And(conj)
+    return post
+
+
+_SK_FIELDS = {'_touch_required': 'bool', '_application': 'str', '_app_hash': 'bytes'}
+_SK_STUBS = {'sha256': sha256_stub, 'Hash.digest': hash_digest_stub, 'sk_webauthn_prefix': wa_prefix_stub,
+             'der_encode': der_encode_stub}
+
+
+def _mk_sk(module, cls, ecdsa):
+    sp = _mk_verify_ssh(module, cls, _sk_post(ecdsa), extra_stubs=_SK_STUBS, fields=_SK_FIELDS)
+    sp.classes['Hash'] = {'ghost_digest': parse_type('bytes')}
+    sp.ensures = [('blob-layout-touch-and-webauthn-binding-then-primitive-verdict', _sk_post(ecdsa))]
+    return sp
+
+
+skec_verify_ssh = _mk_sk('sk_ecdsa', '_SKECDSAKey', True)
+sked_verify_ssh = _mk_sk('sk_eddsa', '_SKEd25519Key', False)
 
 
 # ------------------------------------------------------------------ lemmas and data checks
